@@ -139,6 +139,38 @@ def rule_explen(chk, w):
                  "fixed-width items" % "; ".join(bad or ["has too few return definitions"]), f.span.loc())
 
 
+def _distinct_by_any(w, di):
+    """the combinator form of the pairwise comparison: the result is the negation of
+    `any` over one node's indices of `any` over the other's of the equality of the two elements"""
+    import closures
+    du = closures.deep()(di.body)
+    o = closures.norm(du.origin_local(0))
+    if not (o[0] == "un" and o[1] == "Not"):
+        return False
+
+    def any_of(x, elem):
+        """(container, predicate result with the element named `elem`) for Iterator::any(iter(container), closure)"""
+        if not (x[0] == "call" and x[1].endswith("::any") and len(x[2]) == 2):
+            return None
+        it, cl = x[2]
+        while it[0] == "call" and re.search(r"::(iter|into_iter|copied|cloned)$", it[1]) and it[2]:
+            it = closures.norm(it[2][0])
+        r = closures.closure_result(w, cl, [(elem,)])
+        return (it, closures.norm(r)) if r is not None else None
+    outer = any_of(o[2], "i")
+    if outer is None:
+        return False
+    inner = any_of(outer[1], "j")
+    if inner is None:
+        return False
+    conts = {outer[0], inner[0]}
+    cmp_ = inner[1]
+    eq = (cmp_[0] == "call" and re.search(r"PartialEq.*::eq$|::eq$", cmp_[1]) and
+          {closures.norm(a) for a in cmp_[2]} == {("i",), ("j",)}) or \
+         (cmp_[0] == "bin" and cmp_[1] == "Eq" and {cmp_[2], cmp_[3]} == {("i",), ("j",)})
+    return bool(eq) and conts == {("field", ("arg", 0), ".indices"), ("field", ("arg", 1), ".indices")}
+
+
 def main(tier):
     chk = Check("C19", "other", tier)
     chk.explanation = (
@@ -376,7 +408,10 @@ def main(tier):
         if rets == {"const:0"} or rets == {"bool:False"}:
             okd = True
     loops = len(S.find_calls(di.body, r"Iterator::next$|iter::Iterator>::next$"))
-    if okd and loops >= 2:
+    if not (okd and loops >= 2) and _distinct_by_any(w, di):
+        chk.ok("ACC", "distinct_indices = !a.indices.any(|i| b.indices.any(|j| i == j)): an equal pair forces "
+               "`false`; both index lists are iterated")
+    elif okd and loops >= 2:
         chk.ok("ACC", "distinct_indices: an equal pair forces `false`; both index lists are iterated")
     else:
         chk.fail("ACC", "distinct_indices/shape", "distinct_indices does not return false on an equal "
